@@ -128,7 +128,7 @@ func repoDir() string {
 // the mutant tools) writes its evidence into that tree's scratch area instead.
 func evidenceDir() string {
 	if d := os.Getenv("VERIF_REPO"); d != "" && d != "/repo" {
-		return filepath.Join(os.TempDir(), "verif-evidence-other-tree")
+		return filepath.Join(os.TempDir(), "verif-evidence-"+filepath.Base(d))
 	}
 	return filepath.Join(verifDir, "evidence")
 }
@@ -136,7 +136,7 @@ func evidenceDir() string {
 // replaysDir: like evidenceDir, replay files of runs against another tree do not go to /verif/replays.
 func replaysDir() string {
 	if d := os.Getenv("VERIF_REPO"); d != "" && d != "/repo" {
-		return filepath.Join(os.TempDir(), "verif-replays-other-tree")
+		return filepath.Join(os.TempDir(), "verif-replays-"+filepath.Base(d))
 	}
 	return filepath.Join(verifDir, "replays")
 }
